@@ -145,7 +145,7 @@ class Check:
             coverage=False, heap="4g", extra=None, name=None, deadlock=False):
         name = name or module
         meta = tempfile.mkdtemp(prefix="meta-", dir=self.scratch)
-        cmd = ["timeout", str(timeout), "java", "-Xss64m", "-Xmx" + heap, "-XX:+UseSerialGC" if workers == 1 else "-XX:+UseParallelGC", "-XX:CICompilerCount=2", "-cp", TLA_CP,
+        cmd = ["timeout", str(timeout), "java", "-Xss512m", "-Xmx" + heap, "-XX:+UseSerialGC" if workers == 1 else "-XX:+UseParallelGC", "-XX:CICompilerCount=2", "-cp", TLA_CP,
                "tlc2.TLC", "-metadir", meta, "-workers", str(workers), "-noGenerateSpecTE"]
         if cfg:
             cmd += ["-config", cfg]
@@ -229,7 +229,8 @@ class Check:
         for k, items in sorted(known.items()):
             print("KNOWN-FINDING: property=%s %s (%d cases, e.g. %s)" % (self.pid, k, len(items), items[0][1][:200]), flush=True)
         rc = 0
-        os.makedirs(os.path.join(VERIF, "replays"), exist_ok=True)
+        rdir = os.environ.get("VERIF_REPLAY_DIR", os.path.join(VERIF, "replays"))
+        os.makedirs(rdir, exist_ok=True)
         seen = {}
         for sig, desc, rep in new:
             seen.setdefault(sig, []).append((desc, rep))
@@ -238,7 +239,7 @@ class Check:
             n += 1
             if n > 20:
                 break
-            path = os.path.join(VERIF, "replays", "%s-%d.json" % (self.pid, n))
+            path = os.path.join(rdir, "%s-%d.json" % (self.pid, n))
             with open(path, "w") as fh:
                 json.dump({"property": self.pid, "signature": sig, "tier": self.tier, "seed": self.seed,
                            "cases": [{"description": d, "replay": r} for d, r in items[:5]], "count": len(items)}, fh, indent=1, default=str)
@@ -258,8 +259,9 @@ class Check:
         ev = {"property_id": self.pid, "tier": self.tier, "seed": int(self.seed), "level": self.level,
               "coverage": cov, "assumptions": self.assumptions, "wall_s": round(wall, 2),
               "violations": len(seen)}
-        os.makedirs(os.path.join(VERIF, "evidence"), exist_ok=True)
-        with open(os.path.join(VERIF, "evidence", self.pid + ".json"), "w") as fh:
+        edir = os.environ.get("VERIF_EVIDENCE_DIR", os.path.join(VERIF, "evidence"))
+        os.makedirs(edir, exist_ok=True)
+        with open(os.path.join(edir, self.pid + ".json"), "w") as fh:
             json.dump(ev, fh, indent=1, default=str)
         print("RESULT property=%s tier=%s seed=%s states=%d transitions=%d traces=%d evaluations=%d nontrivial=%d known=%d new=%d wall=%.1fs"
               % (self.pid, self.tier, self.seed, self.states, self.transitions, self.traces, self.evaluations,
